@@ -12,6 +12,7 @@ import (
 	"github.com/ThreeDotsLabs/watermill"
 	"github.com/ThreeDotsLabs/watermill/internal"
 	sync_internal "github.com/ThreeDotsLabs/watermill/pubsub/sync"
+	"github.com/ThreeDotsLabs/watermill/verifhook"
 )
 
 var (
@@ -446,6 +447,7 @@ func (r *Router) RunHandlers(ctx context.Context) error {
 		h.messagesCh = messages
 		h.started = true
 		close(h.startedCh)
+		verifhook.At("router.runhandlers.started", h.name, "")
 
 		h.stopFn = cancel
 		h.stopped = make(chan struct{})
@@ -562,6 +564,7 @@ func (r *Router) Close() error {
 
 	close(r.closingInProgressCh)
 	defer close(r.closedCh)
+	verifhook.At("router.close.signalled", "", "")
 
 	timedout := r.waitForHandlers()
 	if timedout {
@@ -577,6 +580,7 @@ func (r *Router) waitForHandlers() bool {
 	go func() {
 		defer waitGroup.Done()
 		r.handlersWg.Wait()
+		verifhook.At("router.close.handlers_wait_done", "", "")
 	}()
 	waitGroup.Add(1)
 	go func() {
@@ -586,6 +590,7 @@ func (r *Router) waitForHandlers() bool {
 		defer r.runningHandlersWgLock.Unlock()
 
 		r.runningHandlersWg.Wait()
+		verifhook.At("router.close.running_wait_done", "", "")
 	}()
 	return sync_internal.WaitGroupTimeout(&waitGroup, r.config.CloseTimeout)
 }
@@ -643,6 +648,7 @@ func (h *handler) run(ctx context.Context, middlewares []middleware) {
 	go h.handleClose(ctx)
 
 	for msg := range h.messagesCh {
+		verifhook.At("router.run.received", h.name, msg.UUID)
 		h.runningHandlersWgLock.Lock()
 		h.runningHandlersWg.Add(1)
 		h.runningHandlersWgLock.Unlock()
@@ -770,6 +776,7 @@ func (h *handler) addHandlerContext(messages ...*Message) {
 }
 
 func (h *handler) handleClose(ctx context.Context) {
+	verifhook.At("router.handleclose.enter", h.name, "")
 	select {
 	case <-h.routersCloseCh:
 		// for backward compatibility we are closing subscriber
@@ -800,6 +807,7 @@ func (h *handler) handleMessage(msg *Message, handler HandlerFunc) {
 	}()
 
 	h.logger.Trace("Received message", msgFields)
+	verifhook.At("router.handle.start", h.name, msg.UUID)
 
 	producedMessages, err := handler(msg)
 	if err != nil {
@@ -811,6 +819,7 @@ func (h *handler) handleMessage(msg *Message, handler HandlerFunc) {
 	}
 
 	h.addHandlerContext(producedMessages...)
+	verifhook.At("router.handle.before_publish", h.name, msg.UUID)
 
 	if err := h.publishProducedMessages(producedMessages, msgFields); err != nil {
 		h.logger.Error("Publishing produced messages failed", err, nil)
@@ -818,6 +827,7 @@ func (h *handler) handleMessage(msg *Message, handler HandlerFunc) {
 		return
 	}
 
+	verifhook.At("router.handle.before_settle", h.name, msg.UUID)
 	msg.Ack()
 	h.logger.Trace("Message acked", msgFields)
 }
